@@ -14,7 +14,9 @@ describe(payload) / rebuild(d)    JSON witness form of a payload and back
 try_decode(cls, payload)          ("ok", value) | ("reject", exc) | ("crash", exc)
 own_payloads(cls, rng, n_random)  own-length payloads: exhaustive if <= 65536 points, else
                                   every octet value in every position over all-zero, all-0xFF and
-                                  accepted backgrounds, plus n_random random arrays
+                                  accepted backgrounds, plus n_random random arrays; 4-octet types also
+                                  get float32_points(): float32 neighbours of powers of ten, k*10^n,
+                                  powers of two, zero/subnormal/max/inf/NaN borders
 payloads_for(cls, rng, tier)      the hostile space of C07 (every payload kind and length)
 decode_image(cls, rng, n)         list of (payload, value) the type accepts (complete when the own
                                   space has <= 65536 points, else at most n, structured + random)
@@ -144,9 +146,56 @@ def _accepted_backgrounds(cls: type[DPTBase], rng: Any, want: int = 3) -> list[t
     return out
 
 
-def own_payloads(cls: type[DPTBase], rng: Any, n_random: int = 3000) -> Iterator[DPTArray | DPTBinary]:
-    """Payloads of the type's own kind and length (see module docstring)."""
+def float32_points(which: str = "full") -> list[int]:
+    """Raw 32-bit patterns hugging the places where a float32 decoder changes behaviour.
+
+    "decades": the float32 neighbours (-4..+4 ulp) of every power of ten 1e-45..1e38, both signs.
+    "full": additionally -1..+1 ulp around k*10^n (k = 2..9) and around every power of two
+    2^-149..2^127, and -4..+4 around zero, the subnormal/normal border, the largest finite value,
+    infinity and the NaN borders; both signs.
+    """
+    import struct
+
+    def bits(x: float) -> int | None:
+        try:
+            return int.from_bytes(struct.pack(">f", x), "big")
+        except OverflowError:
+            return None
+
+    out: dict[int, None] = {}
+
+    def around(n: int | None, width: int) -> None:
+        if n is None:
+            return
+        n &= 0x7FFFFFFF
+        for d in range(-width, width + 1):
+            m = n + d
+            if 0 <= m <= 0x7FFFFFFF:
+                out.setdefault(m)
+                out.setdefault(m | 0x80000000)
+
+    for exp in range(-45, 39):
+        around(bits(float(f"1e{exp}")), 4)
+    if which == "full":
+        for exp in range(-45, 39):
+            for k in range(2, 10):
+                around(bits(float(f"{k}e{exp}")), 1)
+        for exp in range(-149, 128):
+            around(bits(2.0**exp), 1)
+        for n in (0, 0x007FFFFF, 0x00800000, 0x7F7FFFFF, 0x7F800000, 0x7FC00000, 0x7FFFFFFF, 0x3F800000):
+            around(n, 4)
+    return list(out)
+
+
+def own_payloads(cls: type[DPTBase], rng: Any, n_random: int = 3000, float_points: str = "full") -> Iterator[DPTArray | DPTBinary]:
+    """Payloads of the type's own kind and length (see module docstring).
+
+    4-octet array types additionally get float32_points(float_points) ("full", "decades" or "none").
+    """
     size = space_size(cls)
+    if not is_binary(cls) and cls.payload_length == 4 and float_points != "none":
+        for n in float32_points(float_points):
+            yield DPTArray(tuple(n.to_bytes(4, "big")))
     if size <= EXHAUSTIVE_LIMIT:
         for i in range(size):
             yield mk(cls, i)
